@@ -169,6 +169,24 @@ class Gen:
         if r.random() < 0.25:
             self.emit("phantom_get s %s %s" % (hx(st), hx(r.choice(self.endpoint_keys(st, pool)))))
             return
+        if r.random() < 0.4:
+            c = self.endpoint_keys(st, pool)
+            lk, rk = r.choice(c), r.choice(c)
+            le, re_ = r.choice("EIF"), r.choice("EIF")
+            if le != "F" and re_ != "F" and lk > rk:
+                lk, rk = rk, lk
+            if le != "F" and re_ != "F" and lk == rk:
+                le = re_ = "I"
+            if le == "F" and re_ == "E" and rk == b"":
+                re_ = "I"
+            if r.random() < 0.4:
+                # both endpoints below one 8-byte prefix (which may or may not have a layer yet)
+                live = sorted(self.live.get(st, []))
+                base = (r.choice(live)[:8] if live and r.random() < 0.6 else bytes(r.choice(ALPHA + [0x62]) for _ in range(8)))
+                base = (base + b"\x00" * 8)[:8]
+                lk, rk, le, re_ = base + b"1", base + b"2", r.choice("EI"), r.choice("EI")
+            self.emit("phantom_iscan s %s %s %s %s %s %d %d" % (hx(st), hx(lk), le, hx(rk), re_, 1 if r.random() < 0.4 else 0, r.choice([1, 2, 4])))
+            return
         c = self.endpoint_keys(st, pool)
         lk, rk = r.choice(c), r.choice(c)
         le, re_ = r.choice("EIF"), r.choice("EIF")
